@@ -11,7 +11,7 @@
 From V Require Import base.Prelude base.Strs gen.Tables model.Cfg model.Names model.Wildcard
   model.Addr model.Ports model.Ace model.Lex model.AddrText model.AceText spec.Reference
   proofs.WildProofs proofs.AddrProofs proofs.PortsProofs proofs.NamesProofs proofs.ShadowProofs
-  proofs.TextProofs.
+  proofs.TextProofs proofs.SplitterProofs.
 Local Open Scope N_scope.
 
 (** fields from split spellings: action, protocol number, address sets (any / host / prefix with
@@ -76,6 +76,61 @@ Proof. exact ws_leading. Qed.
 
 Theorem C01_ws_trailing : forall a c, is_ws c = true -> split_ws (a ++ String c "") = split_ws a.
 Proof. exact ws_trailing. Qed.
+
+(** ** the splitter (the regex field separation, modelled on tokens) on canonical lines
+    A canonical line: [sequence] permit|deny PROTOCOL SRC [source-port tokens] DST [tail], in any
+    spacing, where SRC / DST are addresses as the library writes them (any, host A, A/len, A W with
+    dotted addresses; [C01_splitter] also covers group references) and every other token is
+    "address free" - no alternative of the address regex can start at it; this holds for every
+    port name, operator, log keyword and TCP flag of the regenerated tables
+    ([C01_vocabulary_address_free_partial]) and for numbers.  [C01_splitter]: the rightmost-
+    destination search of the greedy regex finds exactly these fields (with the look-behind of
+    repair F11 a destination never starts at the name of an address group).  [C01_line_fields]:
+    the object is then built by the field constructors from exactly the spellings, port tokens
+    and option tokens that stand in the line; [C01_fields_partial] gives their meaning. *)
+Theorem C01_splitter : forall H sq act proto SRC src SPORT DST dst TAIL,
+  head_toks H sq act -> addr_toks SRC src -> names_ok SRC -> Forall af SPORT ->
+  addr_toks DST dst -> Forall af TAIL ->
+  parse_ace_extended (H ++ proto :: SRC ++ SPORT ++ DST ++ TAIL)
+  = Some (mkSplit sq act proto src SPORT dst TAIL).
+Proof. exact parse_ace_extended_canon. Qed.
+
+Theorem C01_line_fields : forall c line H sq act proto SRC src ssp SPORT DST dst dsp TAIL,
+  split_ws line = H ++ proto :: SRC ++ SPORT ++ DST ++ TAIL ->
+  head_toks H sq act -> addr_spelled (plat c) SRC src ssp -> Forall af SPORT ->
+  addr_spelled (plat c) DST dst dsp -> Forall af TAIL ->
+  let dport := fst (split_dstport_option TAIL) in
+  let opts := snd (split_dstport_option TAIL) in
+  parse_ace_text c line =
+    if negb (str_nonempty proto) && match SPORT, dport with [], [] => true | _, _ => false end then VErr
+    else if String.eqb proto "ip" && match SPORT, dport with [], [] => false | _, _ => true end then VErr
+    else
+      do s <- addr_of_spelling (plat c) (Z.of_nat (max_ncwb c)) ssp;
+      do d <- addr_of_spelling (plat c) (Z.of_nat (max_ncwb c)) dsp;
+      do pr <- parse_proto proto;
+      do p1 <- parse_port (plat c) (proto_ctx (plat c) (is15 c) pr) SPORT;
+      do p2 <- parse_port (plat c) (proto_ctx (plat c) (is15 c) pr) dport;
+      do o <- parse_option opts;
+      Ok (mkTace true (seq_of sq) (mkAce (String.eqb act "permit") pr s d p1 p2 (fst o) (snd o)) opts).
+Proof. exact parse_ace_text_fields. Qed.
+
+(** non-vacuity of the hypotheses: a concrete line is canonical in the above sense *)
+Example C01_canonical_line :
+  split_ws "10 permit tcp host 10.0.0.1 eq www   10.0.0.0 0.0.0.255 eq 443 log"
+  = [dec 10; "permit"] ++ "tcp" :: ["host"; render_ip 167772161] ++ ["eq"; "www"]
+    ++ [render_ip 167772160; render_ip 255] ++ ["eq"; "443"; "log"]
+  /\ head_toks [dec 10; "permit"] (dec 10) "permit"
+  /\ addr_spelled Ios ["host"; render_ip 167772161] ("host " ++ render_ip 167772161) (SHost 167772161)
+  /\ Forall af ["eq"; "www"]
+  /\ addr_spelled Ios [render_ip 167772160; render_ip 255] (render_ip 167772160 ++ " " ++ render_ip 255) (SWild 167772160 255)
+  /\ Forall af ["eq"; "443"; "log"].
+Proof.
+  split; [vm_compute; reflexivity|]. split; [apply HT_seq; now left|].
+  split; [apply AS_host; vm_compute; reflexivity|].
+  split; [repeat constructor; vm_compute; reflexivity|].
+  split; [apply AS_wild; vm_compute; reflexivity|].
+  repeat constructor; vm_compute; reflexivity.
+Qed.
 
 (** non-vacuity: a full line through the modelled splitter, in two spellings and layouts *)
 Example C01_nonvacuous :
